@@ -732,6 +732,25 @@ def _():
     return S(closing(f), [3, 1, float("nan"), 5, 1])
 
 
+@spec("rankfrequency_ndarray_counts", "plotting")
+def _():
+    def f(data):
+        fig, ax = plt.subplots()
+        l = PL.rankfrequency(data, ax=ax, normalize_x=False)
+        return [canon_value(np.asarray(l[0].get_xdata())), canon_value(np.asarray(l[0].get_ydata()))]
+    return S(closing(f), np.array([3.0, 1.0, 7.0, 5.0, 1.0]))
+
+
+@spec("colors_hls_many_labels_seeded", "plotting", seed=34)
+def _():
+    return S(PL.labels_to_colors_hls, ["a", "b", "c", "d", "e", "f", "a", "b", "c", "d", "e", "f", "g"], min_count=2)
+
+
+@spec("colors_tableau_many_seeded", "plotting", seed=35)
+def _():
+    return S(PL.labels_to_colors_tableau, list("abcdefgabcdefg"), min_count=1)
+
+
 @spec("colors_hls_seeded", "plotting", seed=31)
 def _():
     return S(PL.labels_to_colors_hls, LABELS(), min_count=2)
